@@ -303,20 +303,24 @@ DropGuard(g) ==
 (* once) | "PollNextRef" (next_ref() polled once); all three share one     *)
 (* readiness rule.                                                          *)
 PollVias == {"Poll", "PollNext", "PollNextRef"}
+(* what a poll under the read lock does to the subscriber's bookkeeping (shared with ObsAsync) *)
+PollEffect(s) ==
+    IF ver = 0
+    THEN UNCHANGED <<obs, unseen, registered, woken>> /\ owed' = owed \ {s} /\ armed' = [armed EXCEPT ![s] = FALSE]
+    ELSE IF obs[s] < ver
+    THEN /\ obs' = [obs EXCEPT ![s] = ver]
+         /\ unseen' = [unseen EXCEPT ![s] = FALSE]
+         /\ armed' = [armed EXCEPT ![s] = FALSE]
+         /\ UNCHANGED <<registered, woken>> /\ owed' = owed \ {s}
+    ELSE /\ registered' = registered \cup {s}     \* a fresh waker is registered
+         /\ woken' = woken \ {s} /\ owed' = owed \ {s}
+         /\ armed' = [armed EXCEPT ![s] = TRUE]
+         /\ UNCHANGED <<obs, unseen>>
+
 Poll(s, via) ==
     /\ s \in subs /\ ~SubBorrowed(s) /\ CanRead /\ via \in PollVias
     /\ ret' = PollResult(s)
-    /\ IF ver = 0
-       THEN UNCHANGED <<obs, unseen, registered, woken>> /\ owed' = owed \ {s} /\ armed' = [armed EXCEPT ![s] = FALSE]
-       ELSE IF obs[s] < ver
-       THEN /\ obs' = [obs EXCEPT ![s] = ver]
-            /\ unseen' = [unseen EXCEPT ![s] = FALSE]
-            /\ armed' = [armed EXCEPT ![s] = FALSE]
-            /\ UNCHANGED <<registered, woken>> /\ owed' = owed \ {s}
-       ELSE /\ registered' = registered \cup {s}     \* a fresh waker is registered
-            /\ woken' = woken \ {s} /\ owed' = owed \ {s}
-            /\ armed' = [armed EXCEPT ![s] = TRUE]
-            /\ UNCHANGED <<obs, unseen>>
+    /\ PollEffect(s)
     /\ hist' = Append(hist, H(via, s, 0, 0, 0))
     /\ UNCHANGED <<kind, val, ver, owners, weaks, subs, guards>>
 
